@@ -83,7 +83,9 @@ def edge_case():
                 raise Refuse("fill shape")
             cond = ast.unparse(e.test)
             body, orelse = dotted(e.body), dotted(e.orelse)
-            if cond != f"{body} is not None":
+            if cond == f"{orelse} is None":
+                body, orelse = orelse, body          # normalised spelling `<default> if x is None else x`
+            elif cond != f"{body} is not None":
                 raise Refuse("fill condition " + cond)
             fills[key.split(".")[1]] = f"(dflt {body} {orelse})"
     if sorted(fills) != sorted(SCEN):
@@ -297,7 +299,7 @@ def result_calc():
     need = [
         "if is_edge_case:\n        self.AVG: float | None = edge_case_result",
         "self.AVG = None if self.ALL is None else np.average(self.ALL)",
-        "self.STD = None if self.ALL is None else empty_list_std if len(self.ALL) == 0 else np.std(self.ALL)",
+        "self.STD = None if self.ALL is None else np.std(self.ALL) if self.ALL else empty_list_std",     # normalised spelling
         "self.ALL: list[float] | None = value_list",
     ]
     for n in need:
